@@ -210,6 +210,17 @@ class Source(tuple, metaclass=abc.ABCMeta):
     def __getnewargs__(self):
         return tuple(self)
 
+    def __eq__(self, other):
+        return (
+            isinstance(other, Source)
+            and other.__class__.__module__ == self.__class__.__module__
+            and other.__class__.__qualname__ == self.__class__.__qualname__
+            and super().__eq__(other)
+        )
+
+    def __ne__(self, other):
+        return not self == other
+
     def __hash__(self):
         return hash(self.__class__.__module__) ^ hash(self.__class__.__qualname__) ^ super().__hash__()
 
